@@ -508,6 +508,9 @@ func c15Gen(r *vu.RNG, n int, emit func(string)) {
 	emit("t 0 3 0.1.0.0 0.1.1.0 0.1.2.0 a1 a2 a3 f3 s")
 	emit("t 0 5 0.1.0.0 0.1.0.0 0.1.0.0 0.1.0.0 0.1.0.0 a1 a2 a3 a4 a5 f2 s")
 	emit("t 5 6 0.6.0.0 1.7.0.0 1.7.0.1 1.7.0.2 0.6.1.3 5.7.1.3 a1 a2 a3 a4 a5 a6 s q2.3 q3.6 q1.6 q6.1 f5 s f6 s")
+	// block numbers next to the end of the uint range (2^64-3 .. 2^64-1, no wrap-around: the
+	// explicit bound of C15_uint64_block_numbers holds)
+	emit("t fffffffffffffffd 3 0.fffffffffffffffe.0.0 1.ffffffffffffffff.1.0 0.fffffffffffffffe.0.1 a1 a2 a3 q0.2 q2.3 q1.2 f1 q1.2 q0.1")
 	// re-delivery of a block that already has a child (must be refused: ErrBlockExists)
 	emit("t 0 3 0.1.0.0 1.2.0.0 2.3.1.0 a1 a2 a1 s q1.2 a3 a2 s q1.3 q2.3")
 	// an abandoned fork that is higher than the finalised block: all of it is reported
